@@ -282,6 +282,7 @@ impl Ctx {
     where
         F: Fn(u64, &mut Rng) + Sync,
     {
+        let t0 = Instant::now();
         let next = AtomicUsize::new(0);
         let stream_tag = crate::prng::hash_bytes(7, stream.as_bytes());
         let id_tag = crate::prng::hash_bytes(11, self.id.as_bytes());
@@ -318,6 +319,7 @@ impl Ctx {
                 });
             }
         });
+        self.max(&format!("stream_wall_ms:{}", stream), t0.elapsed().as_millis() as u64);
     }
 
     /// Writes the evidence file and returns the process exit code (0 held, 1 violated,
